@@ -1,6 +1,9 @@
 package fuzzp
 
 import (
+	"fmt"
+	"github.com/aperturerobotics/bifrost/peer"
+	"github.com/aperturerobotics/bifrost/pubsub/floodsub"
 	"testing"
 
 	"pgregory.net/rapid"
@@ -72,6 +75,132 @@ var specC40 = vstat.Spec[c40Case]{
 func TestC40(t *testing.T)       { vstat.Check(t, specC40) }
 func TestC40Replay(t *testing.T) { vstat.Replay(t, specC40) }
 
+// ---- a whole peer stream into a real FloodSub node ----
+
+type c40sEntry struct {
+	Ch int  `json:"ch"`
+	On bool `json:"on"`
+}
+
+type c40sPub struct {
+	Ch   int    `json:"ch"`
+	Kind string `json:"kind"` // valid, other-channel-signature, nil, empty
+}
+
+type c40sPacket struct {
+	Subs []c40sEntry `json:"subs,omitempty"`
+	Pubs []c40sPub   `json:"pubs,omitempty"`
+}
+
+type c40sCase struct {
+	Packets []c40sPacket `json:"packets"`
+	Muts    []gen.Mut    `json:"muts,omitempty"`
+}
+
+var c40sChannels = []string{"chan", "a", "b", ""}
+
+func genC40s(t *rapid.T) c40sCase {
+	var c c40sCase
+	np := rapid.IntRange(1, 6).Draw(t, "npackets")
+	for i := 0; i < np; i++ {
+		var p c40sPacket
+		ns := rapid.IntRange(0, 3).Draw(t, "nsubs")
+		for j := 0; j < ns; j++ {
+			p.Subs = append(p.Subs, c40sEntry{Ch: rapid.SampledFrom([]int{0, 0, 0, 1, 2, 3}).Draw(t, "ch"), On: rapid.Bool().Draw(t, "on")})
+		}
+		npb := rapid.SampledFrom([]int{0, 0, 1, 2}).Draw(t, "npubs")
+		for j := 0; j < npb; j++ {
+			p.Pubs = append(p.Pubs, c40sPub{Ch: rapid.IntRange(0, 3).Draw(t, "pch"), Kind: rapid.SampledFrom([]string{"valid", "valid", "other-channel-signature", "nil", "empty"}).Draw(t, "pkind")})
+		}
+		c.Packets = append(c.Packets, p)
+	}
+	if rapid.IntRange(0, 3).Draw(t, "mutate") == 0 {
+		n := rapid.IntRange(1, 3).Draw(t, "nm")
+		for i := 0; i < n; i++ {
+			c.Muts = append(c.Muts, gen.GenMut(t, "m"))
+		}
+	}
+	return c
+}
+
+func (c c40sCase) input() []byte {
+	var out []byte
+	n := 0
+	for _, p := range c.Packets {
+		pkt := &floodsub.Packet{}
+		for _, e := range p.Subs {
+			pkt.Subscriptions = append(pkt.Subscriptions, &floodsub.SubscriptionOpts{ChannelId: c40sChannels[e.Ch], Subscribe: e.On})
+		}
+		for _, pb := range p.Pubs {
+			n++
+			ch := c40sChannels[pb.Ch]
+			if ch == "" {
+				ch = "chan"
+			}
+			switch pb.Kind {
+			case "valid":
+				pkt.Publish = append(pkt.Publish, fsPublish(2, ch, []byte(fmt.Sprintf("d%d", n))))
+			case "other-channel-signature":
+				m := fsPublish(2, ch, []byte(fmt.Sprintf("d%d", n)))
+				m.Signature = fsPublish(2, ch+"x", []byte(fmt.Sprintf("d%d", n))).Signature
+				pkt.Publish = append(pkt.Publish, m)
+			case "nil":
+				pkt.Publish = append(pkt.Publish, nil)
+			case "empty":
+				pkt.Publish = append(pkt.Publish, &peer.SignedMsg{})
+			}
+		}
+		out = append(out, frame(pkt)...)
+	}
+	for _, m := range c.Muts {
+		out = m.Apply(out)
+	}
+	return out
+}
+
+func checkC40s(c c40sCase) (o vstat.Outcome) {
+	in := c.input()
+	toggles := map[int]int{}
+	for _, p := range c.Packets {
+		for _, e := range p.Subs {
+			toggles[e.Ch]++
+		}
+	}
+	for _, n := range toggles {
+		if n >= 3 {
+			o.NonTrivial = true
+		}
+	}
+	if len(c.Muts) > 0 {
+		o.NonTrivial = true
+		o.Classes = append(o.Classes, "mutated-stream")
+	} else {
+		o.Classes = append(o.Classes, "well-formed-stream")
+	}
+	r := Run("floodsub-stream", in)
+	if r != nil && r.Kind != "" {
+		o.V = &vstat.Violation{Kind: r.Kind, Msg: r.Msg}
+		return
+	}
+	if r != nil && r.Decoded {
+		o.Classes = append(o.Classes, "stream-processed-to-the-end")
+	}
+	return
+}
+
+var specC40s = vstat.Spec[c40sCase]{
+	Property: "C40",
+	Rule: "a remote peer's whole pubsub stream fed to a real FloodSub node (AddPeerStream over an in-memory pipe): 1-6 framed packets with 0-3 subscription entries (4 channel ids incl. the empty one, subscribe / unsubscribe in any order, repeated) and 0-2 publish entries (valid, signed for another channel, nil, empty), optionally with 1-3 byte mutations of the stream; " +
+		"oracle: the node does not panic (a panic on one of its goroutines ends the process; the driver then reports the case that was executing) and afterwards still delivers an honest peer's message; non-trivial = a channel toggled at least three times, or a mutated stream",
+	Assumptions: []string{"an honest peer's message is delivered within 3 x 3 s"},
+	Gen:         genC40s,
+	Check:       checkC40s,
+	Inflight:    true,
+}
+
+func TestC40Stream(t *testing.T)       { vstat.Check(t, specC40s) }
+func TestC40StreamReplay(t *testing.T) { vstat.Replay(t, specC40s) }
+
 // native fuzz targets (thorough tier): one per decoder
 func fuzzTarget(f *testing.F, target string) {
 	for _, s := range Seeds(target) {
@@ -96,3 +225,4 @@ func FuzzSignedMsg(f *testing.F)         { fuzzTarget(f, "signed-msg") }
 func FuzzEnvelope(f *testing.F)          { fuzzTarget(f, "envelope") }
 func FuzzPeerID(f *testing.F)            { fuzzTarget(f, "peer-id") }
 func FuzzKeys(f *testing.F)              { fuzzTarget(f, "keys") }
+func FuzzFloodsubStream(f *testing.F)    { fuzzTarget(f, "floodsub-stream") }
